@@ -143,19 +143,51 @@ theorem step_inv {p : Prog} {s s' : State} {u : Nat} (h : PInv p s) (hs : step p
           rw [hfu0, denCode]
           simp [fut, State.setUnit, hst', ht]
         | cons t ts =>
-          obtain ⟨o, old⟩ := t
+          obtain ⟨o, old, fin⟩ := t
           rw [ht] at hs hfu0
-          simp only [Option.some.injEq] at hs
-          subst hs
-          refine pinv_emit1 h hu rfl (fun w hw => fut_setUnit_ne hw) ?_ (hlt1 _ rfl)
-          rw [hfu0, denCode]
-          simp [fut, State.setUnit, State.emit, hst']
+          cases fin with
+          | true =>
+            simp only [Option.some.injEq] at hs
+            subst hs
+            refine pinv_emit1 h hu rfl (fun w hw => fut_setUnit_ne hw) ?_ (hlt1 _ rfl)
+            rw [hfu0, denCode]
+            simp [fut, State.setUnit, State.emit, hst']
+          | false =>
+            simp only [Option.some.injEq] at hs
+            subst hs
+            refine pinv_silent1 h hu rfl (fun w hw => fut_setUnit_ne hw) ?_ (hlt1 _ rfl)
+            rw [hfu0, denCode]
+            simp [fut, State.setUnit, hst']
       | log o =>
         simp only [Option.some.injEq] at hs
         subst hs
         refine pinv_emit1 h hu rfl (fun w hw => fut_setUnit_ne hw) ?_ (hlt1 _ rfl)
         rw [hfu0, denCode]
         simp [fut, State.setUnit, State.emit, hst']
+      | create o =>
+        simp only [Option.some.injEq] at hs
+        subst hs
+        refine pinv_emit1 h hu rfl (fun w hw => fut_setUnit_ne hw) ?_ (hlt1 _ rfl)
+        rw [hfu0, denCode]
+        simp [fut, State.setUnit, State.emit, hst']
+      | withOf o =>
+        simp only at hs
+        split at hs
+        · simp only [Option.some.injEq] at hs
+          subst hs
+          refine pinv_silent1 h hu rfl (fun w hw => fut_setUnit_ne hw) ?_ (hlt1 _ rfl)
+          rw [hfu0, denCode]
+          simp [fut, State.setUnit, hst']
+        · cases hs
+      | ctxOf o =>
+        simp only at hs
+        split at hs
+        · simp only [Option.some.injEq] at hs
+          subst hs
+          refine pinv_silent1 h hu rfl (fun w hw => fut_setUnit_ne hw) ?_ (hlt1 _ rfl)
+          rw [hfu0, denCode]
+          simp [fut, State.setUnit, hst']
+        · cases hs
       | join v =>
         simp only at hs
         split at hs
@@ -320,15 +352,34 @@ theorem step_shape {p : Prog} {s s' : State} {u : Nat} (hs : step p s u = some s
           exact ⟨(by simp [State.setUnit]), (by simp [State.setUnit]), (by intro v h; cases h),
             Or.inl (by intro w hw; simp [State.setUnit, hw])⟩
         | cons t ts =>
-          obtain ⟨o, old⟩ := t
+          obtain ⟨o, old, fin⟩ := t
           rw [ht] at hs
-          simp only [Option.some.injEq] at hs; subst hs
-          exact ⟨(by simp [State.setUnit]), (by simp [State.setUnit]), (by intro v h; cases h),
-            Or.inl (by intro w hw; simp [State.setUnit, State.emit, hw])⟩
+          cases fin <;>
+          · simp only [Option.some.injEq] at hs; subst hs
+            exact ⟨(by simp [State.setUnit]), (by simp [State.setUnit]), (by intro v h; cases h),
+              Or.inl (by intro w hw; simp [State.setUnit, State.emit, hw])⟩
       | log o =>
         simp only [Option.some.injEq] at hs; subst hs
         exact ⟨(by simp [State.setUnit]), (by simp [State.setUnit]), (by intro v h; cases h),
           Or.inl (by intro w hw; simp [State.setUnit, State.emit, hw])⟩
+      | create o =>
+        simp only [Option.some.injEq] at hs; subst hs
+        exact ⟨(by simp [State.setUnit]), (by simp [State.setUnit]), (by intro v h; cases h),
+          Or.inl (by intro w hw; simp [State.setUnit, State.emit, hw])⟩
+      | withOf o =>
+        simp only at hs
+        split at hs
+        · simp only [Option.some.injEq] at hs; subst hs
+          exact ⟨(by simp [State.setUnit]), (by simp [State.setUnit]), (by intro v h; cases h),
+            Or.inl (by intro w hw; simp [State.setUnit, hw])⟩
+        · cases hs
+      | ctxOf o =>
+        simp only at hs
+        split at hs
+        · simp only [Option.some.injEq] at hs; subst hs
+          exact ⟨(by simp [State.setUnit]), (by simp [State.setUnit]), (by intro v h; cases h),
+            Or.inl (by intro w hw; simp [State.setUnit, hw])⟩
+        · cases hs
       | join v =>
         simp only at hs
         split at hs
@@ -375,6 +426,9 @@ theorem joinedB_pend {code : List Stmt} : ∀ {pend : List (Nat × Nat)} {d : Na
       simp only [joinedB, Bool.and_eq_true] at h
       exact List.mem_cons_of_mem _ (ih h.2 e he)
     | log o => exact List.mem_cons_of_mem _ (ih (by simpa [joinedB] using h) e he)
+    | create o => exact List.mem_cons_of_mem _ (ih (by simpa [joinedB] using h) e he)
+    | withOf o => exact List.mem_cons_of_mem _ (ih (by simpa [joinedB] using h) e he)
+    | ctxOf o => exact List.mem_cons_of_mem _ (ih (by simpa [joinedB] using h) e he)
     | spawnThread v =>
       exact List.mem_cons_of_mem _ (ih (by simpa [joinedB] using h) e (List.mem_cons_of_mem _ he))
     | spawnTask v =>
